@@ -120,7 +120,9 @@ def _numbers(case, pt):
         for i, t in enumerate(texts):
             eid = 0x50000300 + i
             secs = [{'t': 'PS'}, {'t': 'UD', 'comp': 0x2000, 'sub': 1, 'payload': t.encode().hex()},
-                    {'t': 'ED', 'creator': 'O', 'comp': 0x2000, 'sub': 1, 'payload': ('{"x": [%s]}' % t).encode().hex()}]
+                    {'t': 'ED', 'creator': 'O', 'comp': 0x2000, 'sub': 1, 'payload': ('{"x": [%s]}' % t).encode().hex()},
+                    # plug-in output: the shipped hardware-diagnostics parser hands JSON from the payload back to the tool
+                    {'t': 'UD', 'comp': 0xE500, 'sub': 3, 'payload': ('{"Callout List": [{"Priority": %s}]}' % t).encode().hex()}]
             spec = pelgen.pel_from_spec({'eid': eid, 'plid': eid, 'sections': secs})
             specs.append(spec)
             with open(os.path.join(d, 'in', 'n%02d' % i), 'wb') as f:
@@ -135,7 +137,8 @@ def _numbers(case, pt):
                 docs.append(None)
                 continue
             docs.append(r['doc'])
-            for sname, sec in (('User Data', spec['sections'][1]), ('Extended User Data', spec['sections'][2])):
+            names = pelgen.expected_keys(spec)
+            for sname, sec in ((names[3], spec['sections'][1]), (names[4], spec['sections'][2])):
                 m = pelgen.check_builtin(sec, r['doc'].get(sname), 'O', {})
                 if m:
                     bad('number-changed', 'JSON user data %r: %s' % (texts[i], '; '.join(m)))
